@@ -171,6 +171,37 @@ theorem kid_confined_vault (cls hex : Ranges) (hshape : kidClasses C03.kidPatter
     simp [List.append_assoc]
   rw [e, cleanP_append_entry _ kid (by simp) hname, cleanP_append_entry pfx _ hpfx fact_vault_path_name_plain]
 
+def uuidCovered : Bool :=
+  match kidClasses C03.kidPatternRx with
+  | some (cls, _) => coversUuid cls
+  | none => false
+
+/-- the pattern's class contains every byte a uuid string is made of -/
+theorem fact_uuid_bytes_allowed : uuidCovered = true := by decide
+
+/-- **uuid_names_confined.** `wrapper.NewPrivateKey` does not validate its key name; its only caller passes
+    `uuid.New().String()` (fact_new_key_name_is_uuid_and_validate_shape). Every non-empty string over the uuid alphabet
+    (lower-case hex digits and `-`) longer than two bytes passes `validateKID`, so `kid_confined` /
+    `kid_confined_vault` apply to the names `New` draws as well. -/
+theorem uuid_names_confined (cls hex : Ranges) (hshape : kidClasses C03.kidPatternRx = some (cls, hex))
+    (s : Bytes) (hlen : 2 < s.length) (hu : ∀ b ∈ s, isUuidByte b = true) :
+    validateKID cls hex C03.validateKIDRefusedNames s = true := by
+  have hc : coversUuid cls = true := by
+    have := fact_uuid_bytes_allowed
+    unfold uuidCovered at this
+    rw [hshape] at this
+    exact this
+  unfold validateKID kidMatches
+  have hne : s ≠ [] := by intro e; rw [e] at hlen; simp at hlen
+  have hnr : s ∉ C03.validateKIDRefusedNames := by
+    have h1 : ∀ r ∈ C03.validateKIDRefusedNames, r.length ≤ 2 := by decide
+    intro hm
+    have := h1 s hm
+    omega
+  simp [hne, uuid_tokens cls hex hc s hu, hnr]
+
+example : ∀ b ∈ ascii "3f1c2a9e-5b7d-4c1a-9e2f-0a1b2c3d4e5f", isUuidByte b = true := by decide +kernel
+
 /-- Why the two literal refusals in `validateKID` are needed (the defect repaired by the `fix:` commit): the
     pattern alone accepts `..`, and the Vault path for it is the PARENT of the key store's directory; `.` is the
     directory itself. -/
@@ -278,6 +309,19 @@ theorem backend_touched_only_at_valid_or_new_names (s : Store) (op : Op) (name :
     (h : (step valid s op).key name ≠ s.key name) :
     valid name = true ∨ ∃ f, op = .new name f := by
   cases op with
+  | save n =>
+    left
+    rw [step_save] at h
+    cases hw : wSave valid s n with
+    | error e => simp [hw] at h
+    | ok p =>
+      obtain ⟨s2, k⟩ := p
+      obtain ⟨hv, hs2⟩ := wSave_ok valid s n s2 k hw
+      simp only [hw] at h
+      subst hs2
+      by_cases e : name = n
+      · rw [e]; exact hv
+      · exfalso; apply h; simp [Store.key, alGet_put, e]
   | link k n v => simp [step, Store.key, link_backend] at h
   | migrate => simp [step, Store.key, migrate_backend] at h
   | new n f =>
@@ -318,6 +362,35 @@ theorem backend_touched_only_at_valid_or_new_names (s : Store) (op : Op) (name :
         · rw [e]; exact hv
         · exfalso; apply h; simp [Store.key, alGet_del, e]
 
+/-- the names `New` drew and the names that passed validation are the only names the backend ever holds -/
+def drawnNames : List Op → List String
+  | [] => []
+  | .new n _ :: rest => n :: drawnNames rest
+  | _ :: rest => drawnNames rest
+
+theorem step_key_name (s : Store) (op : Op) (name : String) (k : Nat) (h : (step valid s op).key name = some k) :
+    s.key name = some k ∨ valid name = true ∨ ∃ f, op = .new name f := by
+  by_cases e : (step valid s op).key name = s.key name
+  · exact Or.inl (e ▸ h)
+  · exact Or.inr (backend_touched_only_at_valid_or_new_names valid s op name e)
+
+/-- **backend namespace invariant.** After ANY history, every entry of the backend is stored under a name that
+    passed `validateKID` or that `New` drew itself (a uuid, see `uuid_names_confined`). -/
+theorem backend_names_valid_or_drawn (ops : List Op) (s : Store) (name : String) (k : Nat)
+    (h : (run valid s ops).key name = some k) :
+    (∃ k0, s.key name = some k0) ∨ valid name = true ∨ name ∈ drawnNames ops := by
+  induction ops generalizing s with
+  | nil => exact Or.inl ⟨k, h⟩
+  | cons op rest ih =>
+    rcases ih (step valid s op) h with ⟨k0, h0⟩ | hv | hd
+    · rcases step_key_name valid s op name k0 h0 with h1 | hv | ⟨f, rfl⟩
+      · exact Or.inl ⟨k0, h1⟩
+      · exact Or.inr (Or.inl hv)
+      · exact Or.inr (Or.inr (by simp [drawnNames]))
+    · exact Or.inr (Or.inl hv)
+    · refine Or.inr (Or.inr ?_)
+      cases op <;> simp [drawnNames, hd]
+
 /-- **keyref_binding.** After ANY history of New / Link / Delete / Migrate in which `New` draws unused key names
     (the `uuid.New()` contract), for every kid: if a public key was returned by `New` for that kid and has not been
     unbound since (Delete / Link / Migrate of that same kid), then the only key pair a signing, decryption or
@@ -356,6 +429,7 @@ instance decFreshHist (valid : String → Bool) : (s : Store) → (ops : List Op
     | .link .. => by unfold FreshHist; exact inferInstance
     | .delete .. => by unfold FreshHist; exact inferInstance
     | .migrate => by unfold FreshHist; exact inferInstance
+    | .save .. => by unfold FreshHist; exact inferInstance
 
 def exValid : String → Bool := fun n => n != "../x"
 def exOps : List Op :=
